@@ -16,6 +16,9 @@ CLAIMED = {
  "C15": ("DESIGN.md §4 C15",
          "Deductive proof on the real code of the seven paged RPCs (ListModes, ListHails, ListPublications, ListConsumables, ListInventory, ListChildren, ListWasteRecords), for every collection content, page size and token: no index/slice panic, a negative page_size yields an error status, the page is the contiguous segment of the key-sorted listing that starts at the first key greater than the token's key, is at most the capped size (default 50, cap 1000) and is full unless it reaches the end, total_size is the listing length, the token is dropped on the last page; waste pages count down from a start index clamped into range. sort.Search/sort.Slice are used through contracts stated over the call site's own predicate.",
          "Assumed: each model's List*() result is sorted strictly by the paging key (trusted postcondition; follows from C01's sorted Collection.List plus stored items carrying their collection id), sort.Search/sort.Slice/base64/proto.Marshal library contracts, token round trip through base64+proto (the chain-of-pages partition argument composes the per-call contract with it and is stated, not machine-checked). The read-mask loop of ListChildren is covered for safety and framing only."),
+ "C16": ("DESIGN.md §4 C16",
+         "Deductive proof on the real pkg/cmp code (closures verified with their captured tolerances universally quantified): FloatValueApprox, TimeValueWithin, DurationValueWithin answer ok exactly for fields of their own kind, accept exactly the pairs within tolerance (difference computed in unbounded arithmetic, so int64 overflow is a counterexample), are reflexive for every value including NaN/±Inf, with symmetry/reflexivity lemmas over the spec functions; ValueAnd/ValueOr/And/Or are the conjunction/disjunction over the comparers that answered, for any number of comparers (loop invariants).",
+         "Narrow: agreement of the default comparer (equator) with proto.Equal and the change_time exception are not decided (reflection walks); the Pull suppression step is covered with C04. Assumed: protoreflect accessors are pure, Value.Message()/Descriptor() non-nil, Go type of Duration/Timestamp messages; tolerances finite and non-negative; float rounding not modelled. DurationValueWithinP's defect is a recorded known finding."),
  "C17": ("DESIGN.md §4 C17",
          "Deductive proof on the real pkg/group code, for every member count (including none), every outcome vector and every completion order (a universally quantified ghost sequence resp(members,k) constrained only by 'each member responds once'): ExecuteUpTo/All/Most/Any fail exactly when more than the budget / some / more than half / all members fail, results land at the member's own index, the error returned is the first observed, cancel is called as soon as the budget is exceeded and all responses are drained; ExecuteOne calls members in order until one succeeds (ghost call log); Fast/Race return the first success / first response; Execute never indexes out of range; executeEach's channel is buffered so no sender stays blocked after an early return.",
          "executeEach's goroutines are outside the subset: that its channel delivers exactly one response per member and then closes (chanTotal, chanSeq == resp) is a trusted postcondition; its buffer capacity and freshness are proved. Members are assumed not to write memory the package reads. Real scheduling is represented by the quantified completion order."),
